@@ -225,3 +225,96 @@ func Search(items []Item, width float64, p Params) Result {
 	}
 	return res
 }
+
+// SearchDP computes, for paragraphs too long to enumerate, whether a breaking with all ratios within
+// [-1, Tolerance] exists and the minimum total demerits among those, by dynamic programming over the
+// states (break, fitness class of the line ending there). The total is a sum of per-line terms that
+// depend only on the two breaks of the line and on the fitness class of the line before, so the
+// recurrence is exact; nothing is pruned.
+func SearchDP(items []Item, width float64, p Params) (feasible bool, minDem float64) {
+	var legal []int
+	for b := range items {
+		if Legal(items, b, p) {
+			legal = append(legal, b)
+		}
+	}
+	if len(legal) == 0 || legal[len(legal)-1] != len(items)-1 {
+		return false, math.Inf(1)
+	}
+	// best[k][c]: minimum demerits of a breaking of the items up to legal[k] whose last line has class c
+	inf := math.Inf(1)
+	best := make([][4]float64, len(legal))
+	for k := range best {
+		best[k] = [4]float64{inf, inf, inf, inf}
+	}
+	lineDem := func(a, b int, prevClass int) (float64, int, bool) {
+		l := LineOf(items, a, b, width, p)
+		if math.IsNaN(l.Ratio) || l.Ratio < -1 || l.Ratio > p.Tolerance {
+			return 0, 0, false
+		}
+		d := Demerits1(items, a, b, l, prevClass, p)
+		return d, fitness(l.Ratio), true
+	}
+	for k, b := range legal {
+		// from the start of the paragraph
+		blocked := false
+		for _, m := range legal[:k] {
+			if Forced(items, m, p) {
+				blocked = true
+			}
+		}
+		if !blocked {
+			if d, c, ok := lineDem(-1, b, 1); ok && d < best[k][c] {
+				best[k][c] = d
+			}
+		}
+		for j := k - 1; j >= 0; j-- {
+			a := legal[j]
+			for pc := 0; pc < 4; pc++ {
+				if best[j][pc] == inf {
+					continue
+				}
+				if d, c, ok := lineDem(a, b, pc); ok && best[j][pc]+d < best[k][c] {
+					best[k][c] = best[j][pc] + d
+				}
+			}
+			if Forced(items, a, p) {
+				break // a forced break cannot be skipped
+			}
+		}
+	}
+	minDem = inf
+	for c := 0; c < 4; c++ {
+		minDem = math.Min(minDem, best[len(legal)-1][c])
+	}
+	return minDem < inf, minDem
+}
+
+// Demerits1 is the demerits term of one line (the body of Demerits).
+func Demerits1(items []Item, prev, b int, l Line, prevClass int, p Params) float64 {
+	bad := 100 * math.Pow(math.Abs(l.Ratio), 3)
+	it := items[b]
+	var d float64
+	switch {
+	case it.Kind == Penalty && it.Penalty >= 0:
+		d = math.Pow(p.DemeritsLine+bad+it.Penalty, 2)
+	case it.Kind == Penalty && it.Penalty > -p.Inf:
+		d = math.Pow(p.DemeritsLine+bad, 2) - math.Pow(it.Penalty, 2)
+	default:
+		d = math.Pow(p.DemeritsLine+bad, 2)
+	}
+	pf := false
+	if prev >= 0 {
+		pf = items[prev].Flagged
+	} else {
+		pf = items[0].Flagged
+	}
+	if pf && it.Flagged {
+		d += p.DemeritsFlagged
+	}
+	c := fitness(l.Ratio)
+	if c-prevClass > 1 || prevClass-c > 1 {
+		d += p.DemeritsFitness
+	}
+	return d
+}
